@@ -1,4 +1,5 @@
 import FractopoModel.Model.Validation
+import FractopoModel.Lemmas.Underlap
 /-!
 # C13 — validation is pure and repeatable (history-independence of the orchestration)
 
@@ -96,5 +97,35 @@ theorem C13_history_irrelevant (O : Oracle G) (history : List (Cfg × Bool × Bo
 theorem C13_rerun (O : Oracle G) (cfg : Cfg) (a e : Bool) (frame : List G) (glob : String) :
     (run O cfg a e frame (run O cfg a e frame glob).2).1 = (run O cfg a e frame glob).1 :=
   C13_global_irrelevant O cfg a e frame _ _
+
+/-- **What the only stateful validator does to its class attribute** (regenerated loops of
+`UnderlappingSnapValidator.validation_method`, cls.ERROR threaded as a value): a passing call leaves it untouched; a
+failing call overwrites it with one of the three documented strings, chosen from the call's own arguments only -- the
+value it had before (whatever earlier validations in the process left there) never influences verdict or string. -/
+theorem C13_underlap_attribute {L P : Type} (endpoints_of : L → List P) (dist : L → P → Rat) (isUl : L → L → P → Option Bool)
+    (overlaps : L → L → Bool) (geom : L) (cands : List L) (t m : Rat) (glob glob' : String) (ok : Bool) (out : String)
+    (h : Gen.underlap_validation endpoints_of dist isUl overlaps geom cands t m glob = .ok (ok, out)) :
+    (ok = true → out = glob) ∧
+    (ok = false → out ∈ ["UNDERLAPPING SNAP", "OVERLAPPING SNAP", "STACKED TRACES"] ∧
+      Gen.underlap_validation endpoints_of dist isUl overlaps geom cands t m glob' = .ok (false, out)) ∧
+    (ok = true → Gen.underlap_validation endpoints_of dist isUl overlaps geom cands t m glob' = .ok (true, glob')) := by
+  rw [Underlap.generated_eq_spec] at h ⊢
+  unfold Spec.underlapVerdict at h ⊢
+  cases hh : Spec.underlapHit dist t m cands (endpoints_of geom) with
+  | none =>
+    simp only [hh] at h ⊢
+    cases h
+    simp
+  | some pc =>
+    obtain ⟨ep, c⟩ := pc
+    simp only [hh] at h ⊢
+    cases hu : isUl geom c ep with
+    | none =>
+      simp only [hu] at h ⊢
+      by_cases ho : overlaps geom c = true
+      · simp only [ho, if_true] at h ⊢; cases h; simp
+      · simp only [ho, Bool.false_eq_true, if_false] at h; cases h
+    | some b =>
+      cases b <;> simp only [hu] at h ⊢ <;> cases h <;> simp
 
 end C13
